@@ -88,7 +88,9 @@ func countedLoops(fn *ssa.Function) []*cloop {
 		exit := b.Succs[1]
 		noBreak := true
 		for _, p := range exit.Preds {
-			if p != b {
+			// a break is an edge from inside the loop; an inner loop's exit may also be the header of the loop around it,
+			// which is entered from outside as well
+			if p != b && b.Dominates(p) {
 				noBreak = false
 			}
 		}
@@ -689,6 +691,30 @@ func tdAdd(c *Ctx, rule, path, short string) {
 	}
 	pos := u.Pos(fn.Pos())
 	var bad []string
+	// the part that stores a record in this page: in Add itself, or in a method of the writer that Add calls with the
+	// record (`p.add(rec)`); api is Add, fn from here on the function that holds the column loop
+	api := fn
+	var viaCall *ssa.Call
+	recParam := 1
+	if len(invokesOf(fn, "Add")) == 0 {
+		for _, b := range api.Blocks {
+			for _, ins := range b.Instrs {
+				call, ok := ins.(*ssa.Call)
+				if !ok {
+					continue
+				}
+				sc := call.Call.StaticCallee()
+				if sc == nil || sc == api || u.pkgPathOf(sc) != path || sc.Signature.Recv() == nil || len(call.Call.Args) < 2 || call.Call.Args[0] != ssa.Value(api.Params[0]) || len(invokesOf(sc, "Add")) == 0 {
+					continue
+				}
+				for i, a := range call.Call.Args {
+					if a == ssa.Value(api.Params[1]) {
+						viaCall, fn, recParam = call, sc, i
+					}
+				}
+			}
+		}
+	}
 	loops := countedLoops(fn)
 	adds := invokesOf(fn, "Add")
 	var colAdd *ssa.Call
@@ -707,7 +733,7 @@ func tdAdd(c *Ctx, rule, path, short string) {
 	if !loop.full {
 		bad = append(bad, "the loop over p.fields does not visit every column")
 	}
-	if len(colAdd.Call.Args) != 1 || colAdd.Call.Args[0] != ssa.Value(fn.Params[1]) {
+	if len(colAdd.Call.Args) != 1 || recParam >= len(fn.Params) || colAdd.Call.Args[0] != ssa.Value(fn.Params[recParam]) {
 		bad = append(bad, "the columns are not given the caller's record")
 	}
 	// the control region of the column loop (the loop's own test aside: statements after the loop are in that region too)
@@ -758,7 +784,11 @@ func tdAdd(c *Ctx, rule, path, short string) {
 	// (len == max refused suffices, because len only grows by one from 0; len > max refused does not)
 	admits := false
 	var lenMax []string
-	for d := loop.iff.Block(); d != nil; d = d.Idom() {
+	anchor, admitFn := loop.iff.Block(), fn
+	if viaCall != nil {
+		anchor, admitFn = viaCall.Block(), api
+	}
+	for d := anchor; d != nil; d = d.Idom() {
 		id := d.Idom()
 		if id == nil {
 			break
@@ -771,7 +801,7 @@ func tdAdd(c *Ctx, rule, path, short string) {
 		if !ok {
 			continue
 		}
-		fx, fy := recvFieldLoad(fn, stripConvert(bo.X)), recvFieldLoad(fn, stripConvert(bo.Y))
+		fx, fy := recvFieldLoad(admitFn, stripConvert(bo.X)), recvFieldLoad(admitFn, stripConvert(bo.Y))
 		if fx == nil || fy == nil {
 			continue
 		}
@@ -783,7 +813,7 @@ func tdAdd(c *Ctx, rule, path, short string) {
 		}
 		for si, truth := range []bool{true, false} {
 			sb := id.Succs[si]
-			if len(sb.Preds) != 1 || !(sb == loop.iff.Block() || sb.Dominates(loop.iff.Block())) {
+			if len(sb.Preds) != 1 || !(sb == anchor || sb.Dominates(anchor)) {
 				continue
 			}
 			eff := op
